@@ -213,7 +213,13 @@ func main() {
 					placements(cl, sc.slots, func(sub [][]Op) {
 						c := Case{Sched: sched, Pos: pos, Time: 50}
 						c.Ops = append(append([]Op{}, sc.prefix...), Op{K: "ftick", A: 1, Sub: sub})
+						if sched == "heap" { // the heap array right after the pass with client calls inside it ...
+							c.Ops = append(c.Ops, Op{K: "harr"})
+						}
 						c.Ops = append(c.Ops, sc.epilogue...)
+						if sched == "heap" { // ... and at the end
+							c.Ops = append(c.Ops, Op{K: "harr"})
+						}
 						if nf%997 == 0 {
 							r.Sample(c)
 						}
